@@ -13,7 +13,7 @@ import (
 	"verifh/vk"
 )
 
-var targets = []hwd.Target{hwd.TF0, hwd.TM, hwd.TXA, hwd.TG2own, hwd.TG2hw}
+var targets = []hwd.Target{hwd.TF0, hwd.TM, hwd.TXA, hwd.TG2own, hwd.TG2hw, hwd.TVv, hwd.TVp}
 
 const ownPkg = "verifh/hworld"
 
@@ -28,6 +28,12 @@ func alphabet() []hwd.Op {
 	add(hwd.TF0, true, hwd.KApplyA, hwd.KReturn, hwd.KWhenReturn)
 	a = append(a, hwd.Op{B: 0, T: hwd.TF0, K: hwd.KApplyB, Kept: true}) // re-apply through a handle kept across Cancel/Reset
 	add(hwd.TM, false, hwd.KApplyA, hwd.KReturn, hwd.KWhenReturn, hwd.KCancel)
+	for _, k := range []hwd.Kind{hwd.KApplyA, hwd.KReturn, hwd.KWhenReturn} {
+		a = append(a, hwd.Op{B: 0, T: hwd.TM, K: k, Outer: true}) // through the struct-level handle of the first Struct(..) lookup
+	}
+	// one type through a value instance and through a pointer instance
+	add(hwd.TVv, false, hwd.KApplyA, hwd.KReturn)
+	add(hwd.TVp, false, hwd.KReturn)
 	add(hwd.TXA, false, hwd.KApplyA, hwd.KReturn, hwd.KWhenReturn, hwd.KCancel)
 	add(hwd.TXA, true, hwd.KReturn)
 	add(hwd.TG2own, false, hwd.KApplyA, hwd.KReturn, hwd.KCancel)
